@@ -196,7 +196,7 @@ pub fn run(args: &Args) {
             note_distinct(&mut rep, &s);
             rep.sample_family("hostile-quoted-token", 2, json!(s));
         } else if fam < 89 {
-            let s = refimpl::sentence::long_token_case(&mut rng);
+            let s = if rng.chance(1, 2) { refimpl::sentence::long_token_case(&mut rng) } else { refimpl::sentence::malformed_literal_case(&mut rng) };
             check_one(&mut rep, &s, "long-token", &strict, false);
             note_distinct(&mut rep, &s);
         } else if fam < 92 {
